@@ -1073,7 +1073,11 @@ class Gen:
         names = [n for n, w in table for _ in range(w)]
         for _ in range(n_nodes):
             if extra and self.chance(self.cfg.get("extra_weight", 3)):
-                self.pick(extra)(self)
+                r = self.pick(extra)(self)
+                # the planted pattern's results become graph outputs most of the time (otherwise they are usually dead code)
+                if r and self.depth == 0 and self.chance(3, 4):
+                    forced = self.__dict__.setdefault("forced", [])
+                    forced.extend(v for v in r if isinstance(getattr(v, "arr", None), np.ndarray) and v not in forced and v.kind == "node")
                 continue
             getattr(self, self.pick(names))()
 
@@ -1225,14 +1229,14 @@ class GenModel:
 def models(draw, cfg=None):
     cfg = dict(cfg or {})
     g = Gen(draw, cfg)
-    n_in = draw(st.integers(1, cfg.get("max_inputs", 3)))
+    n_in = draw(st.integers(cfg.get("min_inputs", 1), cfg.get("max_inputs", 3)))
     for _ in range(n_in):
         g.add_input()
     pre = cfg.get("pre")
     if pre:
         pre(g)
     g.grow(draw(st.integers(cfg.get("min_nodes", 2), cfg.get("max_nodes", 12))))
-    return assemble(g, draw)
+    return assemble(g, draw, force_outputs=g.__dict__.get("forced", [])[:4])
 
 
 def assemble(g: Gen, draw, force_outputs=()):
